@@ -421,8 +421,17 @@ static ares_status_t process_option(ares_sysconfig_t *sysconfig,
 
   key = kv[0];
   if (num == 2) {
-    val    = kv[1];
-    valint = (unsigned int)strtoul(val, NULL, 10);
+    unsigned long v;
+
+    val = kv[1];
+    v   = strtoul(val, NULL, 10);
+    /* strtoul() accepts a sign and wraps, and seconds are scaled to
+     * milliseconds below: a number outside the int range of the options API
+     * is read as 0, which the numeric options below ignore or treat as unset */
+    if (*val == '-' || v > 0x7fffffffUL / 1000) {
+      v = 0;
+    }
+    valint = (unsigned int)v;
   }
 
   if (ares_streq(key, "ndots")) {
